@@ -136,7 +136,7 @@ def main():
         "setup_cmd": "./check build",
         "hooks": {
             "guard": "cargo feature verif_hooks",
-            "enable": "engine/Cargo.toml depends on lsm-tree = { path = \"/repo\", features = [\"verif_hooks\"] }; every ./check call rebuilds it from /repo's working tree",
+            "enable": "engine/Cargo.toml depends on lsm-tree = { path = \"/repo\", features = [\"verif_hooks\", \"lz4\"] } (lz4 is the crate's own optional feature, enabled so that compression is a configuration dimension); every ./check call rebuilds it from /repo's working tree",
             "baseline_off_cmd": "cd /repo && cargo nextest run --workspace --no-fail-fast --test-threads 8 --offline || cargo test --workspace --no-fail-fast --offline",
             "source_commits": hook_commits,
             "add_only": True,
